@@ -27,7 +27,7 @@ KEY_TIMED = "cond_timedwait_timeout_wraps"
 # Which model uv_cond_timedwait is compared with: "timed" = the current code (timeout += hrtime
 # wraps), "timedfix" = the saturating variant of notes/C20_fix_timedwait.diff.  Switch the default
 # together with the fix commit (VERIF_C20_TIMED=timedfix tries it without editing).
-TIMED_MODE = os.environ.get("VERIF_C20_TIMED", "timed")
+TIMED_MODE = os.environ.get("VERIF_C20_TIMED", "timedfix")
 KEY_STACK = "stack_size_rounding_wraps"
 
 
@@ -233,7 +233,7 @@ def bar_monitor(case, line):
     calls = rets = nz = 0
     toks = line.split()
     for tk in toks:
-        if tk in ("abort", "crash", "hang", "schederr", "bad", "initfail", "forkfail"):
+        if tk in ("abort", "crash", "hang", "schederr", "bad", "initfail", "forkfail", "undrained"):
             return "run ended with " + tk
         if tk[0] == "v":
             # only when no other grouping exists: exactly count threads, same number of rounds each
@@ -356,6 +356,22 @@ def main():
         b, _, _ = vf.run_lines([model, mode], cases, shards=shards)
         return a, b
 
+    if chk.replay:
+        # re-run the single case of a replay file on both sides and print what each says
+        import json
+        rp = json.load(open(chk.replay))
+        ob, case = rp.get("obligation", ""), rp.get("case")
+        table = [("part A", "codes", [hwrap, "codes"], codes_monitor), ("part B", "stack", [hwrap, "stack"], stack_monitor),
+                 ("part C", TIMED_MODE, [hwrap, "timed"], timed_monitor), ("barrier", "bar", [hbar], bar_monitor),
+                 ("semaphore", "sem", [hsem], sem_monitor)]
+        for tag, mode, harness, mon in table:
+            if tag in ob and case:
+                a, b = both(mode, [case], harness, shards=1)
+                print("case:  %s\nimpl:  %s\nmodel: %s\nmonitor: %s" % (case, a[0] if a else None, b[0] if b else None,
+                                                                      mon(case, a[0]) if a else None))
+        chk.scratch.cleanup()
+        sys.exit(0)
+
     # (a) return-code maps
     cc = corpus("codes.txt") + codes_cases(chk.rng, thorough)
     a, b = both("codes", cc, [hwrap, "codes"])
@@ -379,7 +395,7 @@ def main():
     diff_known(chk, "uv_cond_timedwait deadline = Model/Thread.v part C", tc, a, b, timed_monitor, timed_known)
 
     # (e) the two algorithms under the serialising scheduler, lock-step
-    bc = corpus("barrier.txt") + bar_cases(chk.rng, 20000 if thorough else 2500)
+    bc = corpus("barrier.txt") + bar_cases(chk.rng, 80000 if thorough else 2500)
     a, b = both("bar", bc, [hbar], shards=14)
     vf.diff_cases(chk, "thread-common.c fallback barrier = Model/Thread.v barrier (lock-step under detsched)",
                   bc, a, b, bar_monitor)
@@ -387,7 +403,7 @@ def main():
     chk.cov["barrier_verdicts(done,unfinished,deadlock)"] = [sum(1 for l in a if l.endswith(v)) for v in ("v0", "v1", "v2")]
     chk.cov["barrier_steps_compared"] = sum(len(l.split()) for l in a)
     chk.cov["barrier_rounds_completed"] = sum(l.count(":r1") for l in a)
-    xc = corpus("sem.txt") + sem_cases(chk.rng, 20000 if thorough else 2500)
+    xc = corpus("sem.txt") + sem_cases(chk.rng, 80000 if thorough else 2500)
     a, b = both("sem", xc, [hsem], shards=14)
     vf.diff_cases(chk, "thread.c custom semaphore = Model/Thread.v semaphore (lock-step under detsched)",
                   xc, a, b, sem_monitor)
